@@ -664,10 +664,10 @@ func main() {
 		vh.Emit(cfg, "corpus", header, footer, runAll(corpus), extra())
 	}
 	r := vh.NewRng(cfg.Seed)
-	nTB, nExact, nStarve, nMgr, nKern, maxPk := 220, 120, 6, 120, 60, 40
+	nTB, nExact, nStarve, nMgr, nKern, maxPk := 120, 60, 4, 80, 40, 30
 	starveN := uint64(3000)
 	if cfg.Thorough() {
-		nTB, nExact, nStarve, nMgr, nKern, maxPk = 3000, 1500, 40, 1500, 600, 120
+		nTB, nExact, nStarve, nMgr, nKern, maxPk = 1500, 600, 20, 800, 400, 60
 		starveN = 20000
 	}
 	var tbs, exact, starve, mgrs, kern []Case
